@@ -213,8 +213,16 @@ class SyncInterpreter(BaseInterpreter[TContext, TEvent]):
             self._is_processing = False
         # 📬 Drain anything an entry action raised during that descent.
         self._process_event_queue()
-        # 🔄 Process any immediate "always" transitions upon startup.
-        self._process_transient_transitions()
+        # 🔄 Process any immediate "always" transitions upon startup - behind
+        #    the same guard: an action of such a transition may `raise` an
+        #    event, which must wait until the transition has completed
+        #    instead of being handled between its exit and entry phases.
+        self._is_processing = True
+        try:
+            self._process_transient_transitions()
+        finally:
+            self._is_processing = False
+        self._process_event_queue()
 
         # Capture the post-transition state set after initialization
         post_states = set(self._active_state_nodes)
